@@ -156,4 +156,85 @@ theorem recovers {s : CS} (k : Nat) (hst : s.st = .disconnected) (ha : s.connAct
   · rw [c3, b2, a2]
   · rw [c4, b1, a1]
 
+/-! ### the reconnect task (C13) -/
+
+/-- only the four `reconn*` events look at or touch `reconn` / `reconnSlept` -/
+theorem stepCore_reconn_frame {s t : CS} {e : Ev} (h : stepCore s e = some t) :
+    (e = .reconnStart ∧ s.reconn = 0 ∧ t.reconn = 1 ∧ t.reconnSlept = false) ∨
+    (∃ ms, e = .reconnSleep ms ∧ 500 ≤ ms ∧ s.reconn = 1 ∧ s.reconnSlept = false ∧ t.reconn = 1 ∧ t.reconnSlept = true) ∨
+    (e = .reconnEnd ∧ s.reconn = 1 ∧ t.reconn = 0 ∧ t.reconnSlept = s.reconnSlept) ∨
+    (e = .reconnCall ∧ s.reconn = 1 ∧ s.reconnSlept = true ∧ t.reconn = 1 ∧ t.reconnSlept = true) ∨
+    (e ≠ .reconnStart ∧ (∀ ms, e ≠ .reconnSleep ms) ∧ e ≠ .reconnEnd ∧ e ≠ .reconnCall ∧
+      t.reconn = s.reconn ∧ t.reconnSlept = s.reconnSlept) := by
+  cases e <;> simp only [stepCore] at h <;> (try split at h) <;>
+    simp only [guard_eq_some, Option.some.injEq, reduceCtorEq] at h <;>
+    (try (first | (obtain ⟨_, rfl⟩ := h) | subst h)) <;> (try split) <;> simp_all
+
+theorem step_reconn_frame {s s' : CS} {e : Ev} (h : step s e = some s') :
+    (e = .reconnStart ∧ s.reconn = 0 ∧ s'.reconn = 1 ∧ s'.reconnSlept = false) ∨
+    (∃ ms, e = .reconnSleep ms ∧ 500 ≤ ms ∧ s.reconn = 1 ∧ s.reconnSlept = false ∧ s'.reconn = 1 ∧ s'.reconnSlept = true) ∨
+    (e = .reconnEnd ∧ s.reconn = 1 ∧ s'.reconn = 0 ∧ s'.reconnSlept = s.reconnSlept) ∨
+    (e = .reconnCall ∧ s.reconn = 1 ∧ s.reconnSlept = true ∧ s'.reconn = 1 ∧ s'.reconnSlept = true) ∨
+    (e ≠ .reconnStart ∧ (∀ ms, e ≠ .reconnSleep ms) ∧ e ≠ .reconnEnd ∧ e ≠ .reconnCall ∧
+      s'.reconn = s.reconn ∧ s'.reconnSlept = s.reconnSlept) := by
+  obtain ⟨t, ht, rfl⟩ := step_eq_some.1 h
+  exact stepCore_reconn_frame (t := t) ht
+
+theorem step_reconn_le {s s' : CS} {e : Ev} (hs : s.reconn ≤ 1) (h : step s e = some s') : s'.reconn ≤ 1 := by
+  rcases step_reconn_frame h with ⟨-, -, h1, -⟩ | ⟨_, -, -, -, -, h1, -⟩ | ⟨-, -, h1, -⟩ | ⟨-, -, -, h1, -⟩ | ⟨-, -, -, -, h1, -⟩ <;>
+    omega
+
+theorem runTrace_reconn_le {s s' : CS} {evs : List Ev} (hs : s.reconn ≤ 1) (h : runTrace s evs = some s') :
+    s'.reconn ≤ 1 := by
+  induction evs generalizing s with
+  | nil => obtain rfl := runTrace_nil.1 h; exact hs
+  | cons e es ih =>
+    obtain ⟨t, h1, h2⟩ := runTrace_cons.1 h
+    exact ih (step_reconn_le hs h1) h2
+
+/-- what an accepted trace `evs` ending in `s` says about the reconnect task: at most one is alive, and while one is
+alive the trace splits at its start — no later start — with its ≥ 500 ms wait after that point once it has waited -/
+def ReconnInv (evs : List Ev) (s : CS) : Prop :=
+  s.reconn ≤ 1 ∧
+  (s.reconn = 1 → ∃ pre post, evs = pre ++ Ev.reconnStart :: post ∧ Ev.reconnStart ∉ post ∧
+    (s.reconnSlept = true → ∃ ms, 500 ≤ ms ∧ Ev.reconnSleep ms ∈ post))
+
+theorem reconnInv_step {evs : List Ev} {s s' : CS} {e : Ev} (hi : ReconnInv evs s) (h : step s e = some s') :
+    ReconnInv (evs ++ [e]) s' := by
+  refine ⟨step_reconn_le hi.1 h, fun h1 => ?_⟩
+  -- an event other than `reconnStart` that keeps the task alive extends the tail
+  have ext : e ≠ .reconnStart → s.reconn = 1 →
+      (s'.reconnSlept = true → s.reconnSlept = true ∨ ∃ ms, 500 ≤ ms ∧ e = .reconnSleep ms) →
+      ∃ pre post, evs ++ [e] = pre ++ Ev.reconnStart :: post ∧ Ev.reconnStart ∉ post ∧
+        (s'.reconnSlept = true → ∃ ms, 500 ≤ ms ∧ Ev.reconnSleep ms ∈ post) := by
+    intro hne hs hsl
+    obtain ⟨pre, post, rfl, hp, hw⟩ := hi.2 hs
+    refine ⟨pre, post ++ [e], by simp, ?_, fun h2 => ?_⟩
+    · simp only [List.mem_append, List.mem_singleton, not_or]
+      exact ⟨hp, fun h3 => hne h3.symm⟩
+    · rcases hsl h2 with h3 | ⟨ms, h3, rfl⟩
+      · obtain ⟨ms, h4, h5⟩ := hw h3
+        exact ⟨ms, h4, List.mem_append_left _ h5⟩
+      · exact ⟨ms, h3, by simp⟩
+  rcases step_reconn_frame h with ⟨rfl, -, -, h2⟩ | ⟨ms, rfl, h2, h3, -, -, -⟩ | ⟨-, -, h2, -⟩ |
+      ⟨rfl, h2, h3, -, -⟩ | ⟨h2, -, -, -, h3, h4⟩
+  · exact ⟨evs, [], rfl, by simp, fun h3 => by rw [h2] at h3; cases h3⟩
+  · exact ext (by simp) h3 (fun _ => Or.inr ⟨ms, h2, rfl⟩)
+  · omega
+  · exact ext (by simp) h2 (fun _ => Or.inl h3)
+  · exact ext h2 (h3 ▸ h1) (fun h5 => Or.inl (h4 ▸ h5))
+
+theorem reconnInv_run {pre evs : List Ev} {s s' : CS} (hi : ReconnInv pre s) (h : runTrace s evs = some s') :
+    ReconnInv (pre ++ evs) s' := by
+  induction evs generalizing pre s with
+  | nil => obtain rfl := runTrace_nil.1 h; simpa using hi
+  | cons e es ih =>
+    obtain ⟨t, h1, h2⟩ := runTrace_cons.1 h
+    have := ih (reconnInv_step hi h1) h2
+    simpa using this
+
+theorem reconnInv_init {evs : List Ev} {s : CS} (h : runTrace init evs = some s) : ReconnInv evs s := by
+  have h0 : ReconnInv [] init := ⟨by simp [init], fun h => by simp [init] at h⟩
+  simpa using reconnInv_run h0 h
+
 end N2k.Client.L13
